@@ -75,6 +75,14 @@ func (h BHistory) replay(upto int) map[string]interface{} {
 	return map[string]interface{}{"setup": h.Desc, "steps": st}
 }
 
+type forcedStep struct {
+	kind    int // 1 claim, 3 whitelist edit
+	val     int
+	ev      int
+	variant int
+	add     bool
+}
+
 type BOpts struct {
 	Histories int
 	Steps     int
@@ -121,6 +129,9 @@ func RunBridgeHistories(c Ctx, rep *report.Report, rng *chain.Rng, o BOpts, next
 				powers[i] = 0
 			}
 		}
+		if hI%4 == 3 {
+			powers, wl, nv = []int64{35, 30, 20, 15}, []bool{true, true, true, true}, 4
+		}
 		e := env.NewBridge(powers, wl, 3)
 		h := BHistory{ID: hI, Env: e, Desc: map[string]interface{}{"seed": c.Seed, "history": hI, "powers": powers, "whitelisted": wl}}
 		if rng.Intn(3) == 0 {
@@ -135,13 +146,30 @@ func RunBridgeHistories(c Ctx, rep *report.Report, rng *chain.Rng, o BOpts, next
 		}
 		e.EthID(ethAddrs[2])
 		nEvents := 1 + rng.Intn(3)
+		// template (every 4th history): consensus reached by a shrinking whitelist while a conflicting claim is delivered:
+		// v0, v1 claim content A (65%), v3 (never claimed) leaves the whitelist, v2 delivers content B -> A is final
+		var forced []forcedStep
+		if hI%4 == 3 {
+			forced = []forcedStep{{kind: 1, val: 0, ev: 7, variant: 0}, {kind: 1, val: 1, ev: 7, variant: 0}, {kind: 3, val: 3, add: false}, {kind: 1, val: 2, ev: 7, variant: 1 + rng.Intn(2)}, {kind: 1, val: 2, ev: 7, variant: 0}}
+		}
 		for st := 0; st < o.Steps; st++ {
+			var fs *forcedStep
+			if st < len(forced) {
+				fs = &forced[st]
+			}
 			if o.Pause && rng.Intn(12) == 0 {
 				p := &ethbridgetypes.MsgPause{Signer: e.Admin.Addr.String(), IsPaused: rng.Intn(2) == 0}
 				mustOK(e.Tx(e.Admin, p), "pause")
 				rep.Count("admin.pause-toggle")
 			}
 			w := rng.Intn(o.ClaimW + o.LockW + o.AdminW)
+			if fs != nil {
+				if fs.kind == 1 {
+					w = 0
+				} else {
+					w = o.ClaimW + o.LockW
+				}
+			}
 			var bs BStep
 			var signer chain.Account
 			var msg sdk.Msg
@@ -152,6 +180,9 @@ func RunBridgeHistories(c Ctx, rep *report.Report, rng *chain.Rng, o BOpts, next
 				variant := rng.Intn(3)
 				if rng.Intn(3) != 0 {
 					variant = 0
+				}
+				if fs != nil {
+					vi, ev, variant = fs.val, fs.ev, fs.variant
 				}
 				recv := e.Users[ev%2].Addr
 				amount := new(big.Int).Mul(big.NewInt(int64(10+ev)), chain.E(18))
@@ -203,13 +234,20 @@ func RunBridgeHistories(c Ctx, rep *report.Report, rng *chain.Rng, o BOpts, next
 					Desc: map[string]interface{}{"type": map[bool]string{true: "Burn", false: "Lock"}[burn], "sender": u.Addr.String(), "symbol": sym, "amount": amount.String(),
 						"ceth_amount": ceth.String(), "eth_receiver": eth}}
 			default:
-				switch rng.Intn(4) {
+				pick := rng.Intn(4)
+				if fs != nil {
+					pick = 0
+				}
+				switch pick {
 				case 0, 1:
 					vi := rng.Intn(nv)
 					add := rng.Intn(2) == 0
 					sg := e.OracleAdm
 					if rng.Intn(6) == 0 {
 						sg = e.Users[0] // not the admin
+					}
+					if fs != nil {
+						vi, add, sg = fs.val, fs.add, e.OracleAdm
 					}
 					op := map[bool]string{true: "add", false: "remove"}[add]
 					m := ethbridgetypes.NewMsgUpdateWhiteListValidator(sg.Addr, e.ValAddr(vi), op)
